@@ -49,7 +49,7 @@ const (
 // probeMarker is published instead of a case index while the length fields of a seed are probed.
 const probeMarker = 0x7ffffffe
 
-const maxDeathsPerUnit = 200
+const maxDeathsPerUnit = 48
 
 func cpuTime() time.Duration {
 	var ru syscall.Rusage
@@ -81,8 +81,7 @@ func (d *dtarget) decode(b []byte) (v reflect.Value, n int, err error) {
 type seed struct {
 	Desc   string
 	Bytes  []byte // nil: the value has no encoding (Encode failed; that is C01's subject)
-	Sites  []site // pre-allocating length fields, found by probing the decoder (executor only)
-	probed bool
+	Sites  []site // pre-allocating length fields (see findSites)
 }
 
 // ---- units ------------------------------------------------------------------------------------
@@ -195,7 +194,9 @@ func (p *plan) buildSeed(ti, si int) *seed {
 		if b == nil {
 			return &seed{Desc: desc}
 		}
-		return &seed{Desc: desc, Bytes: append(append([]byte{}, prefix...), b...)}
+		var sites []site
+		findSites(v, len(prefix), "", &sites, 0)
+		return &seed{Desc: desc, Bytes: append(append([]byte{}, prefix...), b...), Sites: sites}
 	}
 	if t.svc {
 		svcs := p.kindTargets("service")
@@ -405,6 +406,7 @@ type unitResult struct {
 	Outcomes  map[string]int64 `json:"outcomes"`
 	NotJudged int64            `json:"not_judged"`
 	Skipped   int64            `json:"skipped"`
+	Abandoned int64            `json:"abandoned"` // cases not run because the unit exceeded its budget of allocation failures outside known length fields
 	Samples   []string         `json:"samples,omitempty"`
 }
 
@@ -681,51 +683,6 @@ func reencodeOracle(t *dtarget, v reflect.Value, n int, in []byte) (string, stri
 	return "", ""
 }
 
-// probeSites finds the 4-byte length fields of a seed at which the decoder allocates in
-// proportion to the announced length before it has seen the elements: the window is set to 0x400
-// and to 0x800 and the allocation is measured; a difference of at least one byte per announced
-// element marks a site. The class of a site is the (power-of-two bucket of the) number of bytes
-// allocated per announced element. Sites only serve to recognise repeated instances of an
-// allocation failure that has already been recorded; they never decide a verdict.
-func (e *executor) probeSites(t *dtarget, s *seed) {
-	if s.probed {
-		return
-	}
-	s.probed = true
-	n := len(s.Bytes)
-	if n < 4 {
-		return
-	}
-	buf := append([]byte{}, s.Bytes...)
-	measure := func(p int, v uint32) uint64 {
-		copy(buf, s.Bytes)
-		binary.LittleEndian.PutUint32(buf[p:], v)
-		a0 := e.readAlloc()
-		guard(func() { t.decode(buf) })
-		return e.readAlloc() - a0
-	}
-	measure(0, binary.LittleEndian.Uint32(s.Bytes)) // warm-up (type caches)
-	lastSite := -10
-	for p := 0; p+4 <= n; p++ {
-		if p == lastSite+2 {
-			continue // would write into the upper half of the length field just found
-		}
-		a1 := measure(p, 0x400)
-		a2 := measure(p, 0x800)
-		if a2 < a1+0x400 {
-			continue
-		}
-		per := (a2 - a1 + 0x200) / 0x400
-		bucket := 0
-		for per > 1 {
-			per >>= 1
-			bucket++
-		}
-		s.Sites = append(s.Sites, site{Off: p, Class: "prealloc-2^" + strconv.Itoa(bucket) + "B/elem"})
-		lastSite = p
-	}
-}
-
 // ---- unit runners -----------------------------------------------------------------------------
 
 func (e *executor) memoHit(key string) bool { return key != "" && e.memo[key] }
@@ -769,15 +726,17 @@ func (e *executor) runUnit(ui int, skip map[int]bool) {
 	switch u.Kind {
 	case "mut":
 		s := e.plan.seedAt(u.Target, u.Seed)
-		if !skip[probeMarker] {
-			e.publish(ui, probeMarker, "")
-			e.probeSites(t, s)
-		}
 		kinds := map[byte]bool{}
 		m := -1
+		unkeyed := 0
 		singles(s.Bytes, func(mu mutation) {
 			m++
 			if skip[m] {
+				return
+			}
+			if unkeyed > maxDeathsPerUnit {
+				e.res.Abandoned++
+				e.res.NotJudged++
 				return
 			}
 			key := memoKey(t.class(), s.Sites, mu)
@@ -791,6 +750,9 @@ func (e *executor) runUnit(ui int, skip map[int]bool) {
 			e.publish(ui, m, key)
 			if e.runCaseKey(t, in, key, func() string { return s.Desc + " " + mu.String() }) {
 				e.memoAdd(key)
+				if key == "" {
+					unkeyed++
+				}
 			}
 			kinds[mu.Kind] = true
 		})
@@ -819,10 +781,6 @@ func (e *executor) runUnit(ui int, skip map[int]bool) {
 }
 
 func (e *executor) runPairs(ui int, t *dtarget, s seed, skip map[int]bool) {
-	if !skip[probeMarker] {
-		e.publish(ui, probeMarker, "")
-		e.probeSites(t, &s)
-	}
 	var ms []mutation
 	singles(s.Bytes, func(mu mutation) {
 		if mu.Kind != 't' {
@@ -1456,6 +1414,10 @@ func firstLines(s string, n int) string {
 
 func mergeUnit(w *evid.Run, ur *unitResult, samples *int, outcomes map[string]int64) {
 	w.EvalN(ur.Evals + ur.Skipped)
+	if ur.Abandoned > 0 {
+		w.Capped(fmt.Sprintf("a mutation unit was cut short after %d allocation failures outside known length fields", maxDeathsPerUnit))
+		outcomes["abandoned:unit-over-failure-budget"] += ur.Abandoned
+	}
 	for _, h := range ur.NonTriv {
 		w.DistinctHash(h)
 	}
@@ -1609,4 +1571,18 @@ func replayC02(prop string, rc caseReplay) {
 		exit(0)
 	}
 	evid.EngineError(prop, "replay: target %s/%s not found", rc.Kind, rc.Target)
+}
+
+func debugSites(name, idx string) {
+	p := makePlan(discover(nil), evid.Thorough())
+	si, _ := strconv.Atoi(idx)
+	for ti, t := range p.targets {
+		if t.Name != name {
+			continue
+		}
+		e := &executor{prop: "C02", plan: p, memo: map[string]bool{}, topCache: map[string]string{}, sample: []metrics.Sample{{Name: "/gc/heap/allocs:bytes"}}}
+		s := p.seedAt(ti, si)
+		_ = e
+		fmt.Printf("%s seed %d %s\n  %x\n  sites %+v\n", name, si, s.Desc, s.Bytes, s.Sites)
+	}
 }
